@@ -844,6 +844,13 @@ func c17YUVBadWindow(r *fw.Rec) {
 	for k := 0; k < 200; k++ {
 		dw, dh := 1+rng.Intn(30), 1+rng.Intn(30)
 		data := rng.Bytes(dw * dh)
+		if rng.Bool() {
+			// a real camera frame: the chroma planes follow the luminance plane in the same buffer,
+			// so the buffer is longer than dataWidth*dataHeight; the window is still bounded by the
+			// luminance plane
+			data = rng.Bytes(dw*dh + dw*((dh+1)/2) + rng.Intn(8))
+			r.Tally("yuv_ctor_buffers_with_chroma_planes")
+		}
 		l, t := rng.Intn(dw), rng.Intn(dh)
 		w, h := 1+rng.Intn(dw-l), 1+rng.Intn(dh-t)
 		class := ""
